@@ -330,6 +330,27 @@ def model_encpy(drv, mode, t, sx):
     raise common.MachineryError('driver: %s' % ans)
 
 
+def float_default_region(t):
+    """a DEFAULT member that is a REAL or contains one: `==` goes through float() (finding T12)"""
+    b = gen.base_of(t)
+    if b[0] in ('seq', 'set', 'choice'):
+        return any((kind == 'd' and contains_real(ft)) or float_default_region(ft) for kind, _, ft in b[1])
+    if b[0] in ('seqof', 'setof'):
+        return float_default_region(b[1])
+    return False
+
+
+def contains_real(t):
+    b = gen.base_of(t)
+    if b[0] == 'real':
+        return True
+    if b[0] in ('seq', 'set', 'choice'):
+        return any(contains_real(ft) for _, _, ft in b[1])
+    if b[0] in ('seqof', 'setof'):
+        return contains_real(b[1])
+    return False
+
+
 def check_native(rep, drv, case, rng, with_model=True, force_opts=False):
     """(a) + NATIVE_TO / NATIVE_FROM correspondence"""
     t, v = case.t, case.v
@@ -485,10 +506,12 @@ def check_tree(rep, drv, case, rng, chunk, tseed, with_model=True):
                     if me[1] != got[1]:
                         rep.disagree('ENCPY', dict(case.replay, mode=list(mode), py=sx[:400], tseed=tseed), me[1].hex()[:400], got[1].hex()[:400])
                 elif me[0] != got[0]:
-                    if not (got[0] == 'err' and got[1] == 'leak:OverflowError' and sigs.has_real_default(t)):
+                    if not (got[0] == 'err' and got[1] == 'leak:OverflowError' and float_default_region(t)):
                         rep.disagree('ENCPY', dict(case.replay, mode=list(mode), py=sx[:400], tseed=tseed), repr(me), repr(got))
             if ie[0] != 'ok':
                 region = engine.encode_refusal_region(case, ie)
+                if region is None and ie[1] == 'leak:OverflowError' and float_default_region(t):
+                    region = SIG_T12      # a REAL inside a constructed DEFAULT is compared through float as well
                 if region is None:
                     rep.fail('encode-' + str(ie[1]), 'encoder refused/crashed on a valid value object',
                              dict(case.replay, kind='tree', mode=list(mode), tseed=tseed))
@@ -513,6 +536,8 @@ def check_tree(rep, drv, case, rng, chunk, tseed, with_model=True):
                 sig = SIG_T11          # `==` against a constructed default raised (the model's pyEq mirrors it)
             elif info.t12 or (obj_dev and sigs.has_real_default(t)):
                 sig = SIG_T12
+            elif got == ('err', 'leak:OverflowError') and float_default_region(t):
+                sig = SIG_T12          # float(default) overflowed inside `==`
             elif got[0] == 'err':
                 sig = 'tree-encode-' + str(got[1])
             else:
